@@ -42,10 +42,11 @@
 (* Part 2 - the signing ceremony of one spend of the common address.       *)
 (* State s = [copy, by, pushed]:                                           *)
 (*   copy[w]  the transaction object wallet w currently has:               *)
-(*            [has: BOOLEAN, signed: set of keys whose signature it holds, *)
+(*            [has: BOOLEAN, signed: per input, the set of keys whose       *)
+(*             signature that input holds,                                 *)
 (*             body: everything a signature commits to - version,          *)
 (*             locktime, outpoints, sequences, outputs]                    *)
-(*   by[w]    history: the wallets that called sign() on the chain of      *)
+(*   by[w]    history: per input, the keys that signed it on the chain of  *)
 (*            copies that led to copy[w]                                   *)
 (*   pushed   some copy has been broadcast                                 *)
 (* Every action is a successor-set operator A(cfg, s, args) (empty set =   *)
@@ -54,12 +55,16 @@
 (*                         proposer's choice (its wallet settings such as  *)
 (*                         anti-fee-sniping, and the locktime / replace-   *)
 (*                         by-fee arguments of the call, decide it)        *)
-(*   Sign(w)               w signs its copy with the key it holds          *)
+(*   Sign(w)               w signs its copy (all inputs) with its key      *)
+(*   SignIn(w, I)          w signs the inputs I only                       *)
+(*   SignKey(w, k, I)      w signs and also uses the key of cosigner k for *)
+(*                         the inputs I (an extra key handed to sign())    *)
 (*   HandOff(w, v, form)   w exports its copy, v imports it                *)
 (*                         form: "object" | "dict" | "file" | "raw"        *)
 (*   Send(w)               w asks for broadcast of its copy                *)
 (*   Verify(w)             w asks its copy for the verdict (no change)     *)
-(* A copy is Valid iff it holds signatures of at least m distinct keys.    *)
+(* A copy is Valid iff EVERY input holds signatures of at least m distinct *)
+(* keys.                                                                   *)
 (* Signatures are made over the body.  No action but Propose chooses a     *)
 (* body: signing, verifying, sending and a hand-off in any form - whatever *)
 (* the settings of the importing wallet - leave the body as it is, so that *)
@@ -123,27 +128,48 @@ TheScript(cfg, rank) == [m |-> cfg.m, keys |-> SortedKeys(1..cfg.n, rank)]
 \* ------------------------------------------------------------------ part 2: ceremony
 Wallets(cfg) == 1..Len(cfg.holder)
 NoBody == [version |-> <<>>, locktime |-> <<>>, ins |-> <<>>, outs |-> <<>>]     \* (no transaction)
-NoCopy == [has |-> FALSE, signed |-> {}, body |-> NoBody]
-InitS(cfg) == [copy |-> [w \in Wallets(cfg) |-> NoCopy], by |-> [w \in Wallets(cfg) |-> {}], pushed |-> FALSE]
+\* signed[i] = the keys whose signature INPUT i of the copy holds (every input is signed on its own: the spend may draw
+\* on several outputs, of one or of several addresses of the group); by[w][i] = history, the keys that signed input i on
+\* the chain of copies that led to copy[w]
+NoCopy == [has |-> FALSE, signed |-> <<>>, body |-> NoBody]
+InitS(cfg) == [copy |-> [w \in Wallets(cfg) |-> NoCopy], by |-> [w \in Wallets(cfg) |-> <<>>], pushed |-> FALSE]
 
-NSig(cp) == Cardinality(cp.signed)
-Valid(cfg, cp) == cp.has /\ NSig(cp) >= cfg.m
+Inputs(cp) == 1..Len(cp.signed)
+NSig(cp) == [i \in Inputs(cp) |-> Cardinality(cp.signed[i])]
+\* "with fewer than m signatures it neither verifies nor is broadcast" holds per input: EVERY input needs m distinct signers
+Valid(cfg, cp) == cp.has /\ \A i \in Inputs(cp) : Cardinality(cp.signed[i]) >= cfg.m
 Exists(s) == \E w \in DOMAIN s.copy : s.copy[w].has
 
 A_Propose(cfg, s, w, body) ==
     IF Exists(s) \/ cfg.knows[w] # "utxo" THEN {}      \* one spend per ceremony, proposed by a wallet that knows the output
-    ELSE {[s EXCEPT !.copy[w] = [has |-> TRUE, signed |-> {}, body |-> body], !.by[w] = {}]}
+    ELSE {[s EXCEPT !.copy[w] = [has |-> TRUE, signed |-> [i \in 1..Len(body.ins) |-> {}], body |-> body],
+                    !.by[w] = [i \in 1..Len(body.ins) |-> {}]]}
 
+\* key k signs the inputs I of w's copy
+AddSig(s, w, k, I) == [s EXCEPT !.copy[w].signed = [i \in Inputs(s.copy[w]) |-> IF i \in I THEN @[i] \cup {k} ELSE @[i]],
+                                !.by[w] = [i \in Inputs(s.copy[w]) |-> IF i \in I THEN @[i] \cup {k} ELSE @[i]]]
+\* w signs its copy: every input, with the key it holds
 A_Sign(cfg, s, w) ==
-    IF ~s.copy[w].has THEN {}
-    ELSE {[s EXCEPT !.copy[w].signed = @ \cup {cfg.holder[w]}, !.by[w] = @ \cup {w}]}
+    IF ~s.copy[w].has THEN {} ELSE {AddSig(s, w, cfg.holder[w], Inputs(s.copy[w]))}
+\* w signs the inputs I only (Transaction.sign(index_n=...))
+A_SignIn(cfg, s, w, I) ==
+    IF ~s.copy[w].has \/ ~(I \subseteq Inputs(s.copy[w])) THEN {} ELSE {AddSig(s, w, cfg.holder[w], I)}
+\* w signs its copy and is also given the private key of cosigner key k for the addresses of the inputs I (sign(keys=...):
+\* "use existing keys from wallet or use keys argument for extra keys")
+A_SignKey(cfg, s, w, k, I) ==
+    IF ~s.copy[w].has \/ ~(I \subseteq Inputs(s.copy[w])) \/ k \notin 1..cfg.n THEN {}
+    ELSE {AddSig(AddSig(s, w, cfg.holder[w], Inputs(s.copy[w])), w, k, I)}
 
-\* the signature sets that can arrive when a copy holding S is handed over in `form`
+\* the signature sets of ONE input that can arrive when a copy holding S on it is handed over in `form`
 Carried(cfg, S, form, devs) ==
     IF form # "raw" THEN {S}
     ELSE IF Cardinality(S) < cfg.m
          THEN (IF "raw-omits-partial-multisig" \in devs THEN {{}} ELSE {S})
          ELSE {T \in SUBSET S : Cardinality(T) = cfg.m}
+\* all sequences q with q[i] \in Q[i]
+RECURSIVE Prod(_, _)
+Prod(Q, i) == IF i > Len(Q) THEN {<<>>} ELSE {<<x>> \o t : x \in Q[i], t \in Prod(Q, i + 1)}
+CarriedAll(cfg, signed, form, devs) == Prod([i \in 1..Len(signed) |-> Carried(cfg, signed[i], form, devs)], 1)
 
 \* the body wallet v holds after importing a copy with that body: the same (property); the deviations rewrite fields
 Zero4 == <<0, 0, 0, 0>>
@@ -165,7 +191,7 @@ OfflineDictBreaks(cfg, v, form, devs) == "offline-dict-import-forgets-multisig" 
 A_HandOff(cfg, s, w, v, form, devs) ==
     IF ~s.copy[w].has \/ w = v THEN {}
     ELSE {[s EXCEPT !.copy[v] = [has |-> TRUE, signed |-> T, body |-> BodyAfter(cfg, s.copy[w].body, v, form, devs)], !.by[v] = s.by[w]] :
-            T \in Carried(cfg, s.copy[w].signed, form, devs)}
+            T \in CarriedAll(cfg, s.copy[w].signed, form, devs)}
 
 \* Send answers with "broadcast" exactly for a valid copy
 SendPushes(cfg, s, w) == Valid(cfg, s.copy[w])
@@ -180,14 +206,17 @@ SendRaises(cfg, s, w, via, devs) == "dict-import-send-raises" \in devs /\ Valid(
 
 \* Sign(w) may leave a corrupted signature list behind: the input class of the deviation (via as for SendRaises)
 SignScrambles(cfg, s, w, via, devs) == "resign-scrambles-unattributed-signatures" \in devs /\ s.copy[w].has
-                                       /\ via = "dict" /\ NSig(s.copy[w]) > cfg.m
+                                       /\ via = "dict" /\ \E i \in Inputs(s.copy[w]) : Cardinality(s.copy[w].signed[i]) > cfg.m
 
-\* one event a = [op, w, v, form, body] ("send_to" = Propose; Sign; Send in one call of the wallet API; body: the body
+\* one event a = [op, w, v, form, body, ins, key] (ins: set of input numbers, key: a cosigner key, for sign_in / sign_key;
+\* "send_to" = Propose; Sign; Send in one call of the wallet API; body: the body
 \* the proposer chose, used by propose / send_to only)
 Compose(F(_), S) == UNION {F(x) : x \in S}
 Act(cfg, s, a, devs) ==
     CASE a.op = "propose" -> A_Propose(cfg, s, a.w, a.body)
       [] a.op = "sign"    -> A_Sign(cfg, s, a.w)
+      [] a.op = "sign_in" -> A_SignIn(cfg, s, a.w, a.ins)
+      [] a.op = "sign_key" -> A_SignKey(cfg, s, a.w, a.key, a.ins)
       [] a.op = "handoff" -> A_HandOff(cfg, s, a.w, a.v, a.form, devs)
       [] a.op = "send"    -> A_Send(cfg, s, a.w)
       [] a.op = "verify"  -> IF s.copy[a.w].has THEN {s} ELSE {}          \* asking the copy for its verdict changes nothing
